@@ -18,9 +18,6 @@ Definition env_step (a : action) : Prop :=
   | _ => False
   end.
 
-Lemma env_covered md a : env_step a -> covered md a.
-Proof. destruct a, md; cbn; auto. Qed.
-
 (* frame: flags that environment steps keep *)
 Lemma env_frame md s a :
   env_step a ->
@@ -61,11 +58,11 @@ Proof.
       rewrite F1, F2, F3, Q1, Q2, R1, R2, R3, A, B. repeat split; auto.
     + rewrite R1, R2, R3, A, B. repeat split; auto.
   - (* Rearm *)
-    cbn [step]. unfold rearm, kctl, set_owed. destruct md; ifs; simp_proj; repeat split; auto.
+    cbn [step]. unfold rearm, kctl, set_owed, set_wadded. destruct md; ifs; simp_proj; repeat split; auto.
 Qed.
 
 Lemma env_inv md s a : env_step a -> Inv md s -> Inv md (step md s a).
-Proof. intros Ha. apply step_inv, env_covered, Ha. Qed.
+Proof. intros _. apply step_inv. Qed.
 
 (* a bundle of facts carried through the environment steps of a round *)
 Record good (md : mode) (s0 s : st) : Prop := mkgood {
@@ -108,7 +105,7 @@ Proof.
   induction n as [|n IH]; intros s; cbn [rearms].
   - repeat split; lia.
   - destruct (IH (rearm md s)) as (A & B & C). rewrite A, B, C.
-    unfold rearm, kctl, set_owed. destruct md; ifs; simp_proj; repeat split; auto; lia.
+    unfold rearm, kctl, set_owed, set_wadded. destruct md; ifs; simp_proj; repeat split; auto; lia.
 Qed.
 
 (* after `finish` the connection is registered and the poller is quiescent *)
